@@ -254,16 +254,20 @@ Definition enc_full_queue (s : mstate) (q : Z) : list Z :=
   flat_map enc_msg_full (filter (in_queue q) (dead s)) ++ [-1] ++
   flat_map enc_msg_full (map hd_msg (sort_held (filter (fun h => in_queue q (hd_msg h)) (processing s)))).
 
-Fixpoint run_obs (qs : list Z) (s : mstate) (h : list op) : list Z :=
+(* Quiet: the harness could not take a snapshot right after this call (it ran concurrently with a consume) *)
+Inductive oop := Obs (o : op) | Quiet (o : op).
+Definition op_of (x : oop) : op := match x with Obs o | Quiet o => o end.
+
+Fixpoint run_obs (qs : list Z) (s : mstate) (h : list oop) : list Z :=
   match h with
   | [] => [-7] ++ enc_state qs s ++ [-8] ++ flat_map (enc_full_queue s) qs
-  | o :: r =>
-      let '(s', res) := step s o in
+  | x :: r =>
+      let '(s', res) := step s (op_of x) in
       (match res with PNone => 0 | PDelivered m => m_id m end) ::
-      (match o with OPoll _ _ _ _ _ _ => [] | _ => enc_state qs s' end) ++ run_obs qs s' r
+      (match x with Obs (OPoll _ _ _ _ _ _) | Quiet _ => [] | Obs _ => enc_state qs s' end) ++ run_obs qs s' r
   end.
 
-Definition mem_obs (c : list Z * list op) : list Z := run_obs (fst c) s0 (snd c).
+Definition mem_obs (c : list Z * list oop) : list Z := run_obs (fst c) s0 (snd c).
 
 (* a message as the harness writes it (ghost fields are filled by the model) *)
 Definition M (i t q pr pl : Z) (p : params) : msg := mkMsg i t q pr pl p None 0.
